@@ -42,6 +42,8 @@ func init() {
 			{ID: "R15u", Floor: 1, Doc: "the payload pass starts its offsets at the size of the CARv1 header just written: the initial offset of the teeing link system in WriteV1 includes no padding and no data offset", Run: ruleR15u},
 			{ID: "R15v", Floor: 3, Doc: "traversalCar.WriteTo returns the number of bytes it handed to the writer: the count of every counting write (header, payload pass, index padding, index) is part of every return that follows it", Run: ruleR15v},
 			{ID: "R15w", Floor: 1, Doc: "traversalCar.WriteV2Header pads up to DataOffset: the zero bytes behind the header number DataOffset minus the pragma and the header just written", Run: ruleR15w},
+			{ID: "R15x", Floor: 1, Doc: "no new mutable package-level state: the link system a traversal runs on is the traversal's own — one kept in a package-level variable and given this traversal's loader is shared by every traversal in the process (= R13k)", Run: ruleR13k},
+			{ID: "R15y", Floor: 1, Doc: "every DAG the selective car was given is walked: in selectiveCarTraverser.traverseBlocks no path through the body of the loop over the DAGs reaches the next round without passing the traversal (Progress.WalkAdv) — a DAG skipped because its root is already in the car loses what its own selector reaches below that root", Run: ruleR15y},
 			{ID: "R15c", Floor: 1, Doc: "size-mismatch guard", Run: ruleR15c},
 			{ID: "R15i", Floor: 8, Doc: "the announced section size and the written framing come from the same length formula (= R01b)", Run: ruleR01b},
 		},
@@ -953,8 +955,8 @@ func ruleR15l(c *Ctx, r *Report) {
 // readOpenerOf: the function a link-system constructor installs as StorageReadOpener — its one
 // closure, or the method (value) or named function it stores into that field.
 func readOpenerOf(fn *ssa.Function) *ssa.Function {
-	if len(fn.AnonFuncs) == 1 {
-		return fn.AnonFuncs[0]
+	if len(closuresOf(fn)) == 1 {
+		return closuresOf(fn)[0]
 	}
 	var out *ssa.Function
 	n := 0
@@ -979,4 +981,93 @@ func readOpenerOf(fn *ssa.Function) *ssa.Function {
 		return out
 	}
 	return nil
+}
+
+// ---- R15y: every DAG of a selective car is walked -------------------------------------------------
+
+func ruleR15y(c *Ctx, r *Report) {
+	fn, err := c.Func(modRoot, "selectiveCarTraverser", "traverseBlocks")
+	if err != nil {
+		r.InfraFail("%v", err)
+		return
+	}
+	key := "every-dag-walked@" + fnKey(fn)
+	var walk ssa.Instruction
+	nWalk := 0
+	isWalk := func(cc *ssa.CallCommon) bool {
+		f := calleeFunc(cc)
+		return f != nil && f.Name() == "WalkAdv" && f.Pkg() != nil && strings.HasSuffix(f.Pkg().Path(), "go-ipld-prime/traversal")
+	}
+	// the traversal itself, or the call of a repository function that performs it (the body of the
+	// loop moved into a method)
+	var walks func(f *ssa.Function, depth int) bool
+	walks = func(f *ssa.Function, depth int) bool {
+		found := false
+		eachInstr(f, func(in ssa.Instruction) {
+			if ci, ok := in.(ssa.CallInstruction); ok && !found {
+				if isWalk(ci.Common()) {
+					found = true
+				} else if t := staticTarget(ci.Common()); t != nil && depth > 0 && t.Pkg != nil && isRepoPkg(t.Pkg.Pkg.Path()) && t.Blocks != nil {
+					found = walks(t, depth-1)
+				}
+			}
+		})
+		return found
+	}
+	eachInstr(fn, func(in ssa.Instruction) {
+		if ci, ok := in.(ssa.CallInstruction); ok {
+			if isWalk(ci.Common()) {
+				walk = in
+				nWalk++
+			} else if t := staticTarget(ci.Common()); t != nil && t.Pkg != nil && isRepoPkg(t.Pkg.Pkg.Path()) && t.Blocks != nil && walks(t, 2) {
+				walk = in
+				nWalk++
+			}
+		}
+	})
+	if nWalk != 1 {
+		r.Undec(key, c.Pos(fn.Pos()), fmt.Sprintf("expected one Progress.WalkAdv call in traverseBlocks, found %d", nWalk))
+		return
+	}
+	wb := walk.Block()
+	// the loop the walk stands in: the nearest dominator of its block that is the target of a back edge and that its block reaches again
+	fwd := func(from *ssa.BasicBlock, without *ssa.BasicBlock) map[*ssa.BasicBlock]bool {
+		seen := map[*ssa.BasicBlock]bool{}
+		var st []*ssa.BasicBlock
+		for _, s := range from.Succs {
+			st = append(st, s)
+		}
+		for len(st) > 0 {
+			b := st[len(st)-1]
+			st = st[:len(st)-1]
+			if seen[b] || b == without {
+				continue
+			}
+			seen[b] = true
+			st = append(st, b.Succs...)
+		}
+		return seen
+	}
+	after := fwd(wb, nil)
+	var head *ssa.BasicBlock
+	for d := wb.Idom(); d != nil; d = d.Idom() {
+		back := false
+		for _, p := range d.Preds {
+			if d == p || d.Dominates(p) {
+				back = true
+			}
+		}
+		if after[d] && back {
+			head = d
+			break
+		}
+	}
+	if head == nil {
+		r.Undec(key, c.Pos(walk.Pos()), "the traversal does not stand in a loop: how the DAGs are enumerated is not recognised")
+		return
+	}
+	// from the loop head, without passing the walk's block, the head must not be reached again
+	r.Count("blocks of the loop over the DAGs", len(after))
+	again := fwd(head, wb)
+	r.Check(!again[head], key, c.Pos(walk.Pos()), "every round of the loop over the DAGs passes the traversal or leaves the function", "a round of the loop over the DAGs can reach the next round without the traversal (a `continue` in front of Progress.WalkAdv): a DAG is skipped — what its selector reaches is not in the car although the DAG was asked for")
 }
